@@ -663,6 +663,12 @@ def do_extract(ex, feats, rw, probe, tygroups):
     if "item" in a:
         txt, _ = cut_item(src, a["item"], what)
         txt = post(txt)
+        mconst = re.search(r"pub const (\w+): Unit = Unit::new\((-?\d+), (-?\d+)\);", txt)
+        if mconst:
+            # R15: Verus forbids calling an exec fn in a const initialiser; Unit::new(m, s) is replaced by the struct
+            # literal it constructs (Unit::new's own contract, proved in the same unit, says exactly that)
+            txt = txt.replace(mconst.group(0), "pub const %s: Unit = Unit { millimeter_exp: %s, second_exp: %s };" % mconst.groups())
+            rw.hit("R15 const initialiser Unit::new(m, s) -> struct literal")
         if re.search(r"\bstruct\s+\w+[^;{]*\{", txt):
             # R13: private fields made `pub` (visibility only; lets specs of pub fns mention them in a one-module file)
             def _pubf(m):
